@@ -11,24 +11,28 @@ def run(tier, seed):
     alpha = ['kill', 'pause', 'play', 'resume', 'cancel', 'cbok', 'cbraise', 'fail']
     kill_plans = core_check.reentrant_plans(['step', 'L_running', 'L_waiting', 'L_paused', 'L_played', 'L_output'], [('kill', 'k2'), ('pause', 'p2')])
     down = core_model.family(['P12', 'P02'], out_missing=['P12', 'P02'])
+    pe = core_model.plan_entry
+    lfaults = [[pe('L_' + e, o, 'fault', 'X')] for e in ('running', 'waiting', 'finished', 'excepted', 'killed', 'paused') for o in (1, 2)]
     if tier == 'quick':
         mc = [dict(name='C02_env', progs=C.fam(C.ALL), plans=[[]], alphabet=alpha, k=3, invariants=INV),
               dict(name='C02_reentrant', progs=C.fam(C.SMALL), plans=kill_plans, alphabet=alpha, k=1, invariants=INV),
               dict(name='C02_downgrade', progs=down, plans=[[]], alphabet=alpha, k=2, invariants=INV)]
         rp = [dict(name='C02_env', progs=C.fam(C.ALL), plans=[[]], alphabet=alpha, k=2),
               dict(name='C02_reentrant', progs=C.fam(['P03', 'P05']), plans=kill_plans, alphabet=alpha, k=1),
-              dict(name='C02_downgrade', progs=down, plans=[[]], alphabet=alpha, k=2)]
+              dict(name='C02_downgrade', progs=down, plans=[[]], alphabet=alpha, k=2),
+              dict(name='C02_listener_raises', progs=C.fam(['P02', 'P03', 'P08']), plans=lfaults, alphabet=['kill', 'pause', 'play'], k=1)]
     else:
         mc = [dict(name='C02_env', progs=C.fam(C.ALL), plans=[[]], alphabet=alpha, k=4, invariants=INV),
               dict(name='C02_reentrant', progs=C.fam(C.ALL), plans=kill_plans, alphabet=alpha, k=2, invariants=INV),
               dict(name='C02_downgrade', progs=down, plans=[[]], alphabet=alpha, k=3, invariants=INV)]
         rp = [dict(name='C02_env', progs=C.fam(C.ALL), plans=[[]], alphabet=alpha, k=3),
               dict(name='C02_reentrant', progs=C.fam(C.SMALL), plans=kill_plans, alphabet=alpha, k=1),
-              dict(name='C02_downgrade', progs=down, plans=[[]], alphabet=alpha, k=3)]
+              dict(name='C02_downgrade', progs=down, plans=[[]], alphabet=alpha, k=3),
+              dict(name='C02_listener_raises', progs=C.fam(C.ALL), plans=lfaults, alphabet=['kill', 'pause', 'play', 'resume'], k=2)]
     return core_check.run_check(
         PID, tier, seed, mc, rp,
         level_text='TLC exhaustive + replay of every behaviour of the dumped state graphs into the real Process',
-        assumptions=C.ASSUMPTIONS + ['the five accessor families (future, result, successful/is_successful, killed/killed_msg, exception) are read from the real process after every action and must agree with each other and with the specification state'],
+        assumptions=C.ASSUMPTIONS + ['three listeners are attached (one recording, two counting): every listener must be told each event exactly once even when another listener raises', 'the five accessor families (future, result, successful/is_successful, killed/killed_msg, exception) are read from the real process after every action and must agree with each other and with the specification state'],
         rule='every interleaving of <=K control requests (incl. kill while paused, during a step, from a listener) with every program; accessor agreement, notification/cleanup counts and stepping-task completion compared after every action')
 
 
